@@ -2,3 +2,5 @@ import SnowModel.Num
 import SnowModel.Wire
 import SnowModel.OpCond
 import SnowModel.Ops.OpCond
+import SnowModel.Simpson
+import SnowModel.Ops.Simpson
